@@ -89,6 +89,31 @@ class Model:
         return vals
 
 
+def chosen_paths(ctx, m, t, fn, paths, rep=None, rule=None):
+    """(valuation, path) pairs to judge for the dumper of type t: one per sample valuation when the guards can be evaluated;
+    when a guard depends on the VALUE in a way the evaluator does not model (`F4.unpack(F4.pack(obj))[0] == obj`), every path
+    is judged on its own - a type with one published wire form must emit it on all of them"""
+    obj = A.params(fn.node)[0]
+    out = []
+    try:
+        for val in m.samples(t):
+            out.append((val, B.select_path(ctx, paths, val, obj)))
+        return out
+    except AnalysisError as e_:
+        out = []
+        for p_ in paths:
+            try:
+                B.materialise(ctx, p_, {}, obj)
+            except AnalysisError:
+                if rep is not None:
+                    rep.undecided(rule, "dumper of %s" % t.__name__, str(e_))
+                return []
+            out.append(({}, p_))
+        if rep is not None:
+            rep.info("%s: guards of the %s dumper are not evaluable (%s); every path judged separately" % (rule, t.__name__, e_))
+        return out
+
+
 def term_eq(a, b):
     """structural equality of loader terms ignoring the arity annotation of `item`"""
     if isinstance(a, tuple) and isinstance(b, tuple):
@@ -530,8 +555,7 @@ def run(ctx, rep, model=None):
         if not paths:
             raise AnalysisError("dumper %s has no emitting path" % fn.qual)
         seen_paths = set()
-        for val in m.samples(t):
-            p = B.select_path(ctx, paths, val, A.params(fn.node)[0])
+        for val, p in chosen_paths(ctx, m, t, fn, paths, rep, "R04.3"):
             rows += 1
             pid = id(p)
             # R04.5 for this valuation
@@ -600,6 +624,20 @@ def run(ctx, rep, model=None):
                                    "which dumpable() declares serializable (dumpable('\\ud800') is True, dump raises)" % errors,
                                    ctx.loc(p.nodes[0]) if p.nodes else fn.loc)
         rep.floor("R04.3", "dump paths exercised for %s" % t.__name__, len(seen_paths), 1)
+        if t in (float, complex):
+            # struct packs a Python float without loss or failure only with the 8-byte format: 'f'/'e' raise OverflowError for
+            # finite doubles beyond their range (and round the rest)
+            from ..constfold import StructVal as _SV
+            for c_ in A.calls(fn.node):
+                if isinstance(c_.func, ast.Attribute) and c_.func.attr == "pack":
+                    sv = ctx.try_fold(c_.func.value, fn.module)
+                    if isinstance(sv, _SV):
+                        narrow = [ch for ch in sv.format if ch in "fe"]
+                        rep.ob("R04.6", "%s: `%s` is total on %s" % (fn.name, A.src(c_)[:40], t.__name__), not narrow,
+                               "format %r holds every float" % sv.format if not narrow else
+                               "format %r cannot hold every float: struct raises OverflowError for finite values beyond its range "
+                               "(1e300), which dumpable() declares serializable - the refusal is not a TypeError" % sv.format,
+                               ctx.loc(c_), kind="site")
     rep.extra.setdefault("table_rows", {})["R04.3 dump valuations"] = rows
     # decode side of the text codec must be total/lossless with the same policy
     for tag, (lfn, term) in m.loaders.items():
